@@ -355,6 +355,7 @@ impl Server {
         let shape = req.get("shape").and_then(|x| x.as_bool()).unwrap_or(false);
         let want_alloc = req.get("alloc_thresh").and_then(|x| x.as_u64());
         let compact = req.get("compact").and_then(|x| x.as_bool()).unwrap_or(false);
+        let parse_only = req.get("parse_only").and_then(|x| x.as_bool()).unwrap_or(false);
         let dump_names: Vec<String> = req
             .get("dump")
             .and_then(|x| x.as_array())
@@ -483,7 +484,15 @@ impl Server {
                     THRESH.store(t as usize, Ordering::Relaxed);
                     alloc_reset();
                 }
-                let oc = run_src(&env, src);
+                let oc = if parse_only {
+                    match catch_unwind(AssertUnwindSafe(|| parse(src))) {
+                        Ok(Ok(_)) => Outcome::Empty,
+                        Ok(Err(pe)) => Outcome::ParseError(pe.0),
+                        Err(_) => Outcome::Panic(take_panic()),
+                    }
+                } else {
+                    run_src(&env, src)
+                };
                 let alloc = if want_alloc.is_some() {
                     let a = alloc_read();
                     THRESH.store(usize::MAX, Ordering::Relaxed);
